@@ -102,7 +102,7 @@ func (b *builder) genConfigs() {
 	// (the last three are other spellings of directories already in the list)
 	dirs := []string{"__snapshots__", "snaps_dir", "nested/deep/__snapshots__", "/abs/snapdir", "../up/__snapshots__", ".snapshots", "__snaps[v2]__",
 		"./__snapshots__", "nested/../snaps_dir", scen.NominalDir + "/__snapshots__",
-		"linked_snaps"} // (a symbolic link to another directory, see World)
+		"linked_snaps", "linked_snaps/deep"} // (a symbolic link to another directory, and a not yet existing directory below it, see World)
 	names := []string{"shared", "custom_name", "zz_world_a_test", "my.snap.file", "data"}
 	exts := []string{".txt", ".json", ".snap", ".yaml", ""}
 	for i := 0; i < n; i++ {
@@ -772,7 +772,7 @@ func World(seed uint64, index int, p *Params) *check.World {
 	b.genConfigs()
 	w := &check.World{Prop: p.Prop, Family: p.Family, Seed: seed, Index: index, Config: p.Config}
 	for _, c := range b.cfgs {
-		if c.Dir != nil && *c.Dir == "linked_snaps" {
+		if c.Dir != nil && strings.HasPrefix(*c.Dir, "linked_snaps") {
 			// the snapshot directory is a symbolic link (a shared folder mounted into the package)
 			w.Pre = append(w.Pre, check.PreFile{Path: scen.NominalDir + "/linked_snaps", Link: "store_real", IsDir: true})
 			break
